@@ -83,7 +83,11 @@ def build(ctx, tier="quick", positions=("column", "table")):
                 y = s.edge(y, P[","], Tag(kind, False))
                 y = s.edge(y, plain_col, Tag(kind, False, "col2"))
             s.edge(y, P[")"], Tag(kind, False), D)
-        end0 = s.new()
+        # a CHECK clause (it switches the lexer into its CHECK mode for the rest of the statement) before further names
+        from .common import numbers
+        gt = lm.custom(">", [">", ">=", "<>"], "OP")
+        e = s.words(sep, "decl:CHK", [("KW", "CHECK"), P["("], (plain_col, "c1"), (gt, "op"), (numbers(lm)["NUM"], "c2"), P[")"]])
+        s.eps(e, D)
         s.edge(D, P[","], Tag("sep", True), sep)
     end = s.new()
     s.edge(O, P[")"], Tag("end", True), end)
